@@ -389,8 +389,13 @@ def run_real(case, species='function', buildable=fdl.Config, with_build=True):
   fdl_history.set_tracking(True)
   try:
     try:
-      cfg = buildable(fn, *[to_py(v) for v in case['args']],
-                      **{k: to_py(v) for k, v in case['kwargs']})
+      if case.get('init_suspended'):
+        with fdl_history.suspend_tracking():
+          cfg = buildable(fn, *[to_py(v) for v in case['args']],
+                          **{k: to_py(v) for k, v in case['kwargs']})
+      else:
+        cfg = buildable(fn, *[to_py(v) for v in case['args']],
+                        **{k: to_py(v) for k, v in case['kwargs']})
     except Exception:
       return {'init': 'err', 'steps': []}, None
     out = {'init': observe(cfg, with_build), 'steps': []}
